@@ -374,6 +374,10 @@ type AssertHint struct {
 	Anchor string
 	Clause *Clause
 	used   bool
+	// proof by case split: the assertion is proved separately for every value lo..hi of a local integer variable
+	CaseVar string
+	CaseLo  int64
+	CaseHi  int64
 	// ghost assignment (ghostset): Target [Index] = Value instead of an assertion
 	Target string
 	Index  *SExpr
@@ -593,33 +597,9 @@ func (cs *Contracts) parseFile(path string, pkgPath string) error {
 				cur.Mode = strings.TrimSpace(r.text)
 			}
 		case "assert":
-			// assert before|after "stmt text": expr
-			if cur == nil {
-				return fmt.Errorf("%s:%d: assert outside func", path, r.line)
-			}
-			t := strings.TrimSpace(r.text)
-			when := ""
-			for _, w := range []string{"before", "after"} {
-				if strings.HasPrefix(t, w+" ") {
-					when = w
-					t = strings.TrimSpace(t[len(w):])
-				}
-			}
-			if when == "" || !strings.HasPrefix(t, "\"") {
-				return fmt.Errorf("%s:%d: assert needs before|after \"anchor\": expr", path, r.line)
-			}
-			end := strings.Index(t[1:], "\"")
-			if end < 0 {
-				return fmt.Errorf("%s:%d: unterminated anchor", path, r.line)
-			}
-			anchor := t[1 : 1+end]
-			rest := strings.TrimSpace(t[2+end:])
-			rest = strings.TrimPrefix(rest, ":")
-			c, err := mkClause("assert", rawClause{kw: "assert", text: strings.TrimSpace(rest), line: r.line})
-			if err != nil {
+			if err := cs.parseAssert(cur, r, path); err != nil {
 				return err
 			}
-			cur.Asserts = append(cur.Asserts, &AssertHint{When: when, Anchor: anchor, Clause: c})
 		case "loadalso":
 			// loadalso <import path>: callee contracts of that package mention its unexported identifiers, so it must be
 			// loaded from source (not export data) whenever functions of this package are verified
@@ -708,6 +688,22 @@ func (cs *Contracts) parseFile(path string, pkgPath string) error {
 		case "free":
 			free = true
 			rest := strings.TrimSpace(r.text)
+			if strings.HasPrefix(rest, "assert ") {
+				// free assert before|after "anchor": expr  -- a fact assumed at that point (listed as an assumption)
+				raws2 := rawClause{kw: "assert", text: strings.TrimSpace(rest[len("assert"):]), line: r.line}
+				n0 := 0
+				if cur != nil {
+					n0 = len(cur.Asserts)
+				}
+				if err := cs.parseAssert(cur, raws2, path); err != nil {
+					return err
+				}
+				if cur != nil && len(cur.Asserts) > n0 {
+					cur.Asserts[len(cur.Asserts)-1].Clause.Free = true
+				}
+				free = false
+				continue
+			}
 			if rest != "" {
 				kw := strings.Fields(rest)[0]
 				r2 := rawClause{kw: kw, text: strings.TrimSpace(rest[len(kw):]), line: r.line}
@@ -953,4 +949,51 @@ func topLevelAssign(s string) int {
 		}
 	}
 	return -1
+}
+
+
+// parseAssert: assert before|after "stmt text": expr
+func (cs *Contracts) parseAssert(cur *FuncContract, r rawClause, path string) error {
+	if cur == nil {
+		return fmt.Errorf("%s:%d: assert outside func", path, r.line)
+	}
+	t := strings.TrimSpace(r.text)
+	when := ""
+	for _, w := range []string{"before", "after"} {
+		if strings.HasPrefix(t, w+" ") {
+			when = w
+			t = strings.TrimSpace(t[len(w):])
+		}
+	}
+	if when == "" || !strings.HasPrefix(t, "\"") {
+		return fmt.Errorf("%s:%d: assert needs before|after \"anchor\": expr", path, r.line)
+	}
+	end := strings.Index(t[1:], "\"")
+	if end < 0 {
+		return fmt.Errorf("%s:%d: unterminated anchor", path, r.line)
+	}
+	anchor := t[1 : 1+end]
+	rest := strings.TrimSpace(t[2+end:])
+	caseVar := ""
+	var lo, hi int64
+	if strings.HasPrefix(rest, "cases ") {
+		// assert after "stmt" cases k 0 15: expr
+		if k := strings.Index(rest, ":"); k > 0 {
+			f := strings.Fields(rest[len("cases"):k])
+			if len(f) == 3 {
+				caseVar = f[0]
+				fmt.Sscanf(f[1], "%d", &lo)
+				fmt.Sscanf(f[2], "%d", &hi)
+			}
+			rest = rest[k:]
+		}
+	}
+	rest = strings.TrimPrefix(rest, ":")
+	e, err := parseSpecExpr(strings.TrimSpace(rest))
+	if err != nil {
+		return fmt.Errorf("%s:%d: %v", path, r.line, err)
+	}
+	c := &Clause{Kind: "assert", Text: strings.TrimSpace(rest), Expr: e, File: path, Line: r.line}
+	cur.Asserts = append(cur.Asserts, &AssertHint{When: when, Anchor: anchor, Clause: c, CaseVar: caseVar, CaseLo: lo, CaseHi: hi})
+	return nil
 }
